@@ -58,6 +58,24 @@ def d_uses_global():
     plain module-x module-x
     """
 
+def d_lazy_skip():
+    """
+    A directive the parser leaves to the part itself (blanks between the prompt and the comment): the part finds it
+    every time it is asked, not only the first time.
+
+    >>>   # xdoctest: +SKIP
+    >>> undefined_name_when_run
+    >>> raise RuntimeError('this statement is switched off')
+    """
+
+def d_lazy_requires():
+    """
+    >>> print('head')
+    head
+    >>>   # xdoctest: +REQUIRES(module:xdverif_no_such_module_b)
+    >>> raise RuntimeError('needs a module that is not there')
+    """
+
 def d_skip_on():
     """
     >>> print('ran')
@@ -156,7 +174,7 @@ def d_requires_toplevel_present():
 
 # verdicts known by construction (whatever ran before, whatever the default options): the first observation in the
 # process is not trusted for these, it may itself be polluted by process-wide state
-EXPECT_VERDICT = {'d_requires_dotted_missing': 'skipped', 'd_requires_dotted_present': 'passed', 'd_requires_toplevel_present': 'passed',
+EXPECT_VERDICT = {'d_lazy_skip': 'skipped', 'd_lazy_requires': 'passed', 'd_requires_dotted_missing': 'skipped', 'd_requires_dotted_present': 'passed', 'd_requires_toplevel_present': 'passed',
                   'd_requires_two': 'skipped', 'd_define': 'passed', 'd_uses_global': 'passed', 'd_read': 'failed', 'd_read_leftover': 'failed'}
 
 
